@@ -20,7 +20,7 @@ from harness.tie_gen_grammar import HEAD as GHEAD
 
 DEFS = """
 From TV Require gen.TensorMethod gen.ProblemGen gen.IterGraphs gen.GlueGen model.GraphsIter.
-From TV Require Import proofs.Compose_post proofs.Compose_cli.
+From TV Require Import model.Compose.
 Module GLc := TV.gen.GlueGen.
 Module IGc := TV.gen.IterGraphs.
 Definition fmt_eqb_i (a b : IGc.Format) : bool := TV.gen.ProblemGen.Format_eqb (fmt_i2t a) (fmt_i2t b).
